@@ -556,6 +556,10 @@ func schedScenario(c *explore.Ctx, name string, bound int, obsProblems func() []
 		fmt.Println("divergence:", div, "problems:", obsProblems(), "steplimit:", r.StepLimit, "deadlock:", r.Deadlock, r.Parked)
 		return
 	}
+	if extra["switch_choice"] == true {
+		explore.SwitchChoice = true
+		defer func() { explore.SwitchChoice = false }()
+	}
 	explore.DFS(c, explore.DFSConfig{Name: name, Bound: bound, Body: body, ShardDepth: 1, Check: func(r *vsched.Result, choices []int) {
 		cas := func() any {
 			m := map[string]any{"scenario": name, "deviation_bound": bound, "choices": choices}
